@@ -14,14 +14,11 @@ Theorem src_features g :
   Source.compute_geometric_features g =
   match features g with Some fs => Ok fs | None => Err EOther end.
 Proof.
-  destruct g as [t|s e|t f|l|r|s lo e hi|l|l|l];
-    unfold Source.compute_geometric_features, features, compute_bounds;
-    try reflexivity;
-    match goal with
-    | |- ?f ?g = _ => unfold f
-    end;
-    unfold py_shp_bounds, mk_feature, bounds_features;
+  (* the whole generated source is unfolded, so the proof does not depend on how the nine functions share helpers *)
+  destruct g as [t|s e|t f|l|r|s lo e hi|l|l|l]; autounfold with src;
+    unfold features, compute_bounds, py_shp_bounds, mk_feature, bounds_features, py_len, nb;
+    cbn [to_shapely]; try reflexivity;
     match goal with
     | |- context [shp_bounds ?s] => destruct (shp_bounds s) as [[[[a b] c] d]|]
-    end; cbn [bind option_map to_shapely shp_geoms app]; rewrite ?parts_count, ?map_length; reflexivity.
+    end; cbn [bind option_map shp_geoms app]; rewrite ?map_length; reflexivity.
 Qed.
